@@ -28,8 +28,17 @@ Inductive srule :=
 | SMatch (pattern src_prefix : str) (dst_type : atype) (dst_prefix step : str).
 (* an absent prefix is the empty string *)
 
-(* keyword comparison ignoring ASCII case: kw is given in lower case *)
-Definition ci (tok : str) (kw : String.string) : Prop := map to_lower_ascii tok = bs kw.
+(* keyword comparison ignoring case: kw is given in lower case *)
+(* lower case as Go's strings.ToLower sees it, up to equality with ASCII words: A-Z -> a-z and
+   the two non-ASCII characters that lower-case to an ASCII letter (U+0130 -> i, U+212A -> k) *)
+Fixpoint lower (s : str) : str :=
+  match s with
+  | 196 :: 176 :: r => 105 :: lower r
+  | 226 :: 132 :: 170 :: r => 107 :: lower r
+  | c :: r => to_lower_ascii c :: lower r
+  | [] => []
+  end.
+Definition ci (tok : str) (kw : String.string) : Prop := lower tok = bs kw.
 Arguments ci tok kw%string.
 
 Inductive atype_tok : str -> atype -> Prop :=
